@@ -38,6 +38,7 @@ def ulps(a, b):
 
 
 class Prop(BaseProp):
+    replay_whole = True
     coq_targets = ['ND/Proofs/C06_proofs.vo']
     n_quick, n_thorough = 600, 12000
 
